@@ -72,7 +72,7 @@ def run(tier, seed):
         ctx.nontrivial(("B", t["kind"], t["cap"], t["targets"], t["p"], len(t["ev"]), str(t["ev"][-1]["after"]["sx"])))
     seen = set()
     for (clause, tid, l) in sorted(fails, key=lambda f: (f[1], f[2])):
-        if (clause, tid) in seen:
+        if (clause, tid) in seen or not clause.startswith("storage."):      # draw.* clauses belong to C18
             continue
         seen.add((clause, tid))
         t = traces[tid]
